@@ -58,7 +58,16 @@ def make_scenario(rng):
         obs_text = "status"
     else:
         obs_text = "%s:%d" % (obs, rng.randrange(1000))
-    return {"setup": ";".join(setup), "expr": ";".join(expr), "obs": obs_text}
+    sc = {"setup": ";".join(setup), "expr": ";".join(expr), "obs": obs_text}
+    if rng.random() < 0.3:
+        # context reuse: a bigger (or smaller) tree evaluated through the same context first
+        n = rng.randint(2, 7)
+        prior = ["sphere:%d,%d" % (rng.randrange(1000), rng.randint(1, 3))]
+        for i in range(n):
+            prior.append("trans:0,%d,%d,%d" % (rng.randrange(1000), rng.randrange(1000), rng.randrange(1000)))
+            prior.append("%s:-1,-2" % rng.choice(["add", "sub", "add"]))
+        sc["prior"] = ";".join(prior)
+    return sc
 
 
 class C15(Check):
@@ -133,8 +142,8 @@ class C15(Check):
                     rep_args = dict(j["args"])
                     rep_args["k"] = v["k"] if v["k"] > 0 else 1
                     rep_args.pop("maxk", None)
-                    desc = "scenario setup=[%s] expr=[%s] obs=%s flavour=%s: cancel at check k=%d of %d: %s" % (
-                        j["args"]["setup"], j["args"]["expr"], j["args"]["obs"], j["flavour"], v["k"], x["checks"], v["clause"])
+                    desc = "scenario setup=[%s] expr=[%s] prior=[%s] obs=%s flavour=%s: cancel at check k=%d of %d: %s" % (
+                        j["args"]["setup"], j["args"]["expr"], j["args"].get("prior", ""), j["args"]["obs"], j["flavour"], v["k"], x["checks"], v["clause"])
                     self.add_finding(key, desc, {"property": "C15", "flavour": j["flavour"], "args": rep_args, "k": v["k"]})
                 if len(samples) < 6 and rng.random() < 0.1:
                     samples.append({"scenario": {k: j["args"][k] for k in ("setup", "expr", "obs")}, "flavour": j["flavour"],
@@ -168,6 +177,7 @@ class C15(Check):
         want = key_str(finding["key"])
         rep["expect"] = finding["key"]
         a = rep["args"]
+        a.setdefault("prior", "")
 
         def still(args):
             k, _ = self.reproduce(dict(rep, args=args))
@@ -182,7 +192,7 @@ class C15(Check):
             b["budget_ms"] = 4000
             return still(b)
 
-        for part in ("expr", "setup"):
+        for part in ("prior", "expr", "setup"):
             ops = [o for o in a[part].split(";") if o]
             if len(ops) > 1:
                 ops2, _ = simdrv.ddmin(ops, lambda o: still_any_k(dict(a, **{part: ";".join(o)})), budget=16)
